@@ -265,6 +265,20 @@ func extractC16() *lean {
 		}
 	}
 	l.def("setTimestampStmts", "List String", leanStrList(setStmts), setStmts)
+	// newSQLStore (every Module.Start): how the service records are made sure of — only MISSING ones may be created,
+	// an existing record (seed, timestamp) must survive a restart
+	startCalls := []string{}
+	if nd := funcDecl(store, "newSQLStore"); nd != nil {
+		ast.Inspect(nd.Body, func(n ast.Node) bool {
+			if c, ok := n.(*ast.CallExpr); ok {
+				if sel, ok := c.Fun.(*ast.SelectorExpr); ok && exprString(sel.X) == "db" {
+					startCalls = append(startCalls, "db."+sel.Sel.Name+"("+c16Exprs(c.Args)+")")
+				}
+			}
+			return true
+		})
+	}
+	l.def("newStoreDBCalls", "List String", leanStrList(startCalls), startCalls)
 
 	// removeExpired / search: the expiry comparisons
 	var pruneConds []string
